@@ -370,6 +370,11 @@ def do_taut(req):
     t = Tautology()
     pat = B.to_py(req['pat'])
     out = {'out': 'ok', 'verdict': 'none', 'conc': B.to_json(pat), 'stages': [], 'stage_error': None}
+    for w in req.get('warm', ()):        # history: other formulas decided before on the SAME Tautology object
+        try:
+            t.prove_tautology(B.to_py(w))
+        except EXC:
+            pass
     try:
         r = t.prove_tautology(pat)
     except EXC as e:
@@ -423,6 +428,12 @@ def do_resolve(req):
             return r
     t = Rec()
     out = {'out': 'ok', 'res': 'none', 'conc': {'t': 'ev', 'i': 0}, 'loop': None}
+    for w in req.get('warm', ()):        # history: other clause lists refuted before on the SAME object
+        try:
+            t.start_resolution_algorithm([list(c) for c in w])
+        except EXC:
+            pass
+        calls.clear(); entry.clear()
     try:
         r = t.start_resolution_algorithm([list(c) for c in req['clauses']])
         if len(entry) == 2:
